@@ -67,18 +67,25 @@ def materialize(srcs):
     return d
 
 
-def execute(srcs):
-    """-> (exit status or 'timeout', stdout)"""
+def execute3(srcs):
+    """-> (exit status or 'timeout', stdout, name of the uncaught exception or '')"""
     d = materialize(srcs)
     try:
         try:
-            p = subprocess.run([PY, "-I", "-c", BOOT, d], stdout=subprocess.PIPE, stderr=subprocess.DEVNULL,
+            p = subprocess.run([PY, "-I", "-c", BOOT, d], stdout=subprocess.PIPE, stderr=subprocess.PIPE,
                                timeout=20, text=True, cwd=d)
         except subprocess.TimeoutExpired:
-            return ("timeout", "")
-        return (p.returncode, p.stdout)
+            return ("timeout", "", "")
+        last = (p.stderr.strip().split("\n") or [""])[-1]
+        m = re.match(r"(\w+(?:\.\w+)*)(:|$)", last)
+        return (p.returncode, p.stdout, m.group(1) if (m and p.returncode != 0) else "")
     finally:
         shutil.rmtree(d, ignore_errors=True)
+
+
+def execute(srcs):
+    """-> (exit status or 'timeout', stdout): what the oracle compares"""
+    return execute3(srcs)[:2]
 
 
 def all_parse(srcs):
@@ -295,14 +302,15 @@ def usef_features(srcs, mod, fname):
 
 def signature(obj):
     k = obj.get("kind", "")
+    f = ":" + str(obj.get("failure", ""))
     if k == "enc":
-        return "enc:" + "+".join(f for f in features(obj["sources"], obj.get("field", "x")) if f in OPEN_FEATURES)
+        return "enc:" + "+".join(f for f in features(obj["sources"], obj.get("field", "x")) if f in OPEN_FEATURES) + f
     if k == "l2f":
         src = obj["sources"][obj["mod"]]
         name = re.match(r"\w+", src[obj["offset"]:]).group(0)
-        return "l2f:" + ("clash" if name in class_attributes(src) else "")
+        return "l2f:" + ("clash" if name in class_attributes(src) else "") + f
     if k == "usef":
-        return "usef:" + "+".join(usef_features(obj["sources"], obj["mod"], obj["target"]))
+        return "usef:" + "+".join(usef_features(obj["sources"], obj["mod"], obj["target"])) + f
     if k in ("fac", "mobj"):
         return k + ":" + str(obj.get("shape", ""))
     return None
@@ -458,18 +466,19 @@ def cfg_term(kind, prj, I, fname="create"):
     return "(fac_cfg %s %s %s)" % ("true" if kind == "facg" else "false", I("C"), I(fname))
 
 
-def case_term(kind, prj, rope_prj, before, refused=None):
+def case_term(kind, prj, rope_prj, before, refused=None, after=None):
     I = G.Interner()
     cfg = cfg_term(kind, prj, I)
     P = G.g_prog(prj, I)
     R = "None" if rope_prj is None else "(Some %s)" % G.g_prog(rope_prj, I)
     outs = parse_out(before[1]) if before[0] == 0 else None
-    if any(c.get("base") for c in prj["classes"]):
-        outs = None          # Obj has no inheritance: the model's run is not compared (execution oracle only)
     O = "None" if outs is None else "(Some %s)" % G.g_list(outs)
     F = "None" if refused is None else "(Some %s)" % G.g_bool(refused)
-    return "{| c_cfg := %s; c_prog := %s; c_rope := %s; c_out := %s; c_refused := %s; c_fuel := 60%%nat |}" % (
-        cfg, P, R, O, F)
+    A = "None"
+    if after is not None and after[0] == 0 and parse_out(after[1]) is not None:
+        A = "(Some %s)" % G.g_list(parse_out(after[1]))
+    return ("{| c_cfg := %s; c_prog := %s; c_rope := %s; c_out := %s; c_refused := %s; c_after := %s; "
+            "c_fuel := 60%%nat |}" % (cfg, P, R, O, F, A))
 
 
 def accessor_refusal(rec):
@@ -550,19 +559,68 @@ def execute_records(recs, workers=12):
             todo.setdefault(key(r["new"]), r["new"])
     keys = list(todo)
     with ThreadPoolExecutor(max_workers=workers) as ex:
-        for k, res in zip(keys, ex.map(lambda k: execute(todo[k]), keys)):
+        for k, res in zip(keys, ex.map(lambda k: execute3(todo[k]), keys)):
             cache[k] = res
     for r in recs:
-        r["before"] = cache[key(r["srcs"])]
+        r["before"] = cache[key(r["srcs"])][:2]
+        r["failure"] = None
+        if r["status"] == "error":
+            r["failure"] = "crash"
         if r["status"] == "ok":
             bad = all_parse(r["new"])
             if bad:
                 r["oracle"] = bad
+                r["failure"] = "parse"
             else:
-                after = cache[key(r["new"])]
+                after3 = cache[key(r["new"])]
+                after = after3[:2]
+                r["after"] = after
                 if after != r["before"]:
                     r["oracle"] = "behaviour differs: before exit=%r stdout=%r, after exit=%r stdout=%r" % (
                         r["before"][0], r["before"][1][-200:], after[0], after[1][-200:])
+                    # the class of the failure: a different output with the same (zero) exit status, or an exception
+                    if after[0] == r["before"][0]:
+                        r["failure"] = "behaviour"
+                    else:
+                        r["failure"] = "exception:" + (after3[2] or str(after[0]))
+
+
+# which failure each open finding predicts (brief item 3: a failure is attributed to a finding only if the input has
+# exactly the finding's shape AND the failure is the predicted one AND, where a model predicts the defective result
+# exactly, rope's result and the observed output are the model's)
+EXPECTED_FAILURE = {
+    ("enc", "effectful-primary"): ("behaviour",),
+    ("enc", "chained"): ("behaviour", "parse"),
+    ("l2f", "clash"): ("behaviour", "exception:TypeError", "exception:AttributeError"),
+    ("usef", "temps"): ("exception:NameError", "exception:UnboundLocalError"),
+    ("usef", "dup-param"): ("behaviour",),
+}
+
+
+def failure_class(rec, obj, code, text_ok):
+    """'expected' iff the observed failure is the one the matching finding predicts (and is explained by the models)"""
+    sig = signature(dict(obj, failure=""))
+    if sig is None:
+        return rec.get("failure") or "?"
+    kind, feats = sig.split(":")[0], sig.split(":")[1]
+    fail = rec.get("failure") or "?"
+    if fail not in EXPECTED_FAILURE.get((kind, feats), ()):
+        return fail
+    if (kind, feats) == ("enc", "effectful-primary"):
+        # Refactor.tP reproduces the duplicated / reordered primary: rope's result must be the model's and the
+        # output of the refactored project must be the one the model computes
+        if rec.get("skip_model") or rec.get("rope_prj") is None or (code & (1 | 32)):
+            return fail + "/not-the-model's-prediction"
+    if (kind, feats) == ("l2f", "clash") and rec.get("unit") and fail == "behaviour":
+        # Local.local_to_field reproduces the overwritten field: rope's result must be the model's and the output
+        # of the refactored project the one the Obj run of the model's result gives
+        if rec.get("o_rope") is None or (rec.get("o_code", 0) & (1 | 8)):
+            return fail + "/not-the-model's-prediction"
+    if (kind, feats) == ("enc", "chained"):
+        # Splice.changed_module reproduces the exact text
+        if not text_ok:
+            return fail + "/not-the-model's-prediction"
+    return "expected"
 
 
 def evaluate_others(prj, rng):
@@ -578,18 +636,19 @@ def evaluate_others(prj, rng):
         if st != "ok":
             rec["msg"] = new
         recs.append(rec)
-    targets = [(prj["where"][d["name"]], d["name"]) for d in prj["funcs"]]
-    targets += [("ma", d["name"]) for d in prj["classes"][0]["methods"]]
+    targets = [(prj["where"][d["name"]], d["name"], ("func", d["name"])) for d in prj["funcs"]]
+    targets += [("ma", d["name"], ("method", "C", d["name"])) for d in prj["classes"][0]["methods"]]
     rng.shuffle(targets)
-    for mod, name in targets[:3]:
-        add("mobj", name, do_method_object(srcs, mod, name), {"mod": mod})
+    for mod, name, unit in targets[:3]:
+        add("mobj", name, do_method_object(srcs, mod, name), {"mod": mod, "unit": unit, "var": "self"})
     locs = G.method_locals(prj)
     rng.shuffle(locs)
     for meth, var in locs[:2]:
         i = srcs["ma"].index("def %s(" % meth)
         m = re.compile(r"^\s+%s = " % re.escape(var), re.M).search(srcs["ma"], i)
         off = m.end() - len(var) - 3
-        add("l2f", "%s.%s" % (meth, var), do_local_to_field(srcs, "ma", off), {"mod": "ma", "offset": off})
+        add("l2f", "%s.%s" % (meth, var), do_local_to_field(srcs, "ma", off),
+            {"mod": "ma", "offset": off, "unit": ("method", "C", meth), "var": var})
     # LocalToField requested on things that are NOT locals of a method: locals and parameters of plain functions,
     # parameters of methods, module-level variables.  (HEAD refuses; whatever is answered goes through the oracle.)
     others = []
@@ -615,9 +674,99 @@ def evaluate_others(prj, rng):
         if what in seen:
             continue
         seen.add(what)
+        unit, var = unit_at(srcs[mod], off)
         add("l2f", "%s@%s:%d" % (what, mod, off), do_local_to_field(srcs, mod, off),
-            {"mod": mod, "offset": off, "l2f_target": what})
+            {"mod": mod, "offset": off, "l2f_target": what, "unit": unit, "var": var})
     return recs
+
+
+def unit_at(src, off):
+    """(unit, name) of the identifier at offset `off`: ('method', class, m) / ('func', f) / ('main',)"""
+    offs = line_offsets(src)
+    var = re.match(r"\w+", src[off:]).group(0)
+    line = src.count("\n", 0, off) + 1
+    best = ("main",)
+    for n in ast.parse(src).body:
+        if isinstance(n, ast.FunctionDef) and n.lineno <= line <= n.end_lineno:
+            best = ("func", n.name)
+        if isinstance(n, ast.ClassDef) and n.lineno <= line <= n.end_lineno:
+            for b in n.body:
+                if isinstance(b, ast.FunctionDef) and b.lineno <= line <= b.end_lineno:
+                    best = ("method", n.name, b.name)
+    return best, var
+
+
+def g_unit(u, I):
+    if u[0] == "method":
+        return "(UMethod %s %s)" % (I(u[1]), I(u[2]))
+    if u[0] == "func":
+        return "(UFunc %s)" % I(u[1])
+    return "UMain"
+
+
+def check_others(ctx, recs):
+    """LocalToField / MethodObject on the generated Obj projects: rope's result (parsed back) and rope's refusal are
+    compared in Coq with Local.local_to_field / Local.l2f_refuses / Local.method_object, and the Obj run of the
+    model's MethodObject result with CPython's output of the original project."""
+    sel = [r for r in recs if r["kind"] in ("mobj", "l2f") and r.get("unit") and r["status"] in ("ok", "refused")
+           and not r["prj"].get("nest")]
+    terms = []
+    for r in sel:
+        prj = r["prj"]
+        I = G.Interner()
+        parser = G.Parser([c["name"] for c in prj["classes"]] + ["_K"])
+        rp = None
+        if r["status"] == "ok":
+            try:
+                back = parser.project(r["new"], [d["name"] for d in prj["funcs"]], [c["name"] for c in prj["classes"]])
+                rp = {k: back[k] for k in ("classes", "funcs", "main")}
+            except (G.Unsupported, SyntaxError):
+                rp = None
+        r["o_rope"] = rp
+        outs = parse_out(r["before"][1]) if r["before"][0] == 0 else None
+        terms.append("{| oc_kind := %s; oc_prog := %s; oc_unit := %s; oc_var := %s; oc_names := {| mo_cls := %s; "
+                     "mo_self := %s; mo_host := %s; mo_call := %s |}; oc_rope := %s; oc_refused := %s; oc_out := %s; "
+                     "oc_after := %s |}" % (
+                         "0%N" if r["kind"] == "l2f" else "1%N", G.g_prog(prj, I), g_unit(r["unit"], I), I(r["var"]),
+                         I("_K"), I("self"), I("host"), I("__call__"),
+                         "None" if rp is None else "(Some %s)" % G.g_prog(rp, I),
+                         G.g_bool(r["status"] == "refused"),
+                         "None" if outs is None else "(Some %s)" % G.g_list(outs),
+                         ("(Some %s)" % G.g_list(parse_out(r["after"][1])))
+                         if (r["kind"] == "l2f" and r.get("failure") == "behaviour" and parse_out(r["after"][1]) is not None)
+                         else "None"))
+        r["o_code"] = 0
+    shard = 40
+    bodies = [HEADER + "From RopeVerif.C17 Require Import Local.\nDefinition cases : list ocase := %s.\n"
+              "Eval vm_compute in (omismatches cases).\n" % G.g_list(terms[s:s + shard]).replace("; {| oc_kind", ";\n {| oc_kind")
+              for s in range(0, len(terms), shard)]
+    outs = ctx.coq_files_parallel(bodies)
+    ctx.extra["l2f_mobj_model_cases"] = ctx.extra.get("l2f_mobj_model_cases", 0) + len(terms)
+    ctx.traces += len(terms)
+    for si, out in enumerate(outs):
+        pairs = ctx.parse_pairs(out)
+        for (i, code) in (pairs[0] if pairs else []):
+            r = sel[si * shard + i]
+            r["o_code"] = code
+            if r["status"] == "ok" and r["o_rope"] is None:
+                continue          # result outside the Obj fragment: execution oracle only
+            code &= ~8            # bit 8 only qualifies an oracle failure (see failure_class)
+            if not code:
+                continue
+            what = []
+            if code & 1:
+                what.append("rope's result differs from the model's (Local.%s)" % (
+                    "local_to_field" if r["kind"] == "l2f" else "method_object"))
+            if code & 2:
+                what.append("rope's refusal differs from Local.l2f_refuses")
+            if code & 4:
+                what.append("the Obj run of the model's result differs from CPython's output of the original")
+            ctx.violation(dict(replay_obj(r), mismatch=what, new_sources=r.get("new"),
+                               broken="correspondence RopeVerif.C17.Runner.run_ocase (Local.v vs rope/refactor/"
+                                      "localtofield.py, method_object.py)"),
+                          "C17 %s: %s" % (r["kind"], "; ".join(what)), no_input=True)
+            if ctx.too_many():
+                return
 
 
 def evaluate_nest(rng):
@@ -678,7 +827,8 @@ def check_records(ctx, recs):
     recs = [r for r in recs if r["kind"] in ("enc", "fac", "facg")] + [r for r in recs if r["kind"] not in ("enc", "fac", "facg")]
     n_model = len([r for r in recs if r["kind"] in ("enc", "fac", "facg")])
     for s in range(0, n_model, shard):
-        terms = [case_term(r["kind"], r["prj"], r["rope_prj"], r["before"], accessor_refusal(r))
+        terms = [case_term(r["kind"], r["prj"], r["rope_prj"], r["before"], accessor_refusal(r),
+                           r.get("after") if (r["kind"] == "enc" and r.get("failure") == "behaviour") else None)
                  for r in recs[s:min(s + shard, n_model)]]
         bodies.append(HEADER + "Definition cases : list case := %s.\nEval vm_compute in (mismatches cases).\n"
                       "Eval vm_compute in (count_domain cases).\n" % G.g_list(terms).replace("; {| c_cfg", ";\n {| c_cfg"))
@@ -736,6 +886,8 @@ def check_records(ctx, recs):
             ctx.count("%s:original-exits-nonzero" % kind)
         ro = replay_obj(r)
         if r["status"] == "error":
+            ro["failure"] = failure_class(r, ro, mism.get(idx, 0), idx not in smism)
+        if r["status"] == "error":
             ctx.violation(dict(ro, observed=r["msg"]), "C17 %s: get_changes crashed: %s" % (kind, r["msg"][:200]))
             continue
         if r["status"] == "refused":
@@ -744,6 +896,8 @@ def check_records(ctx, recs):
                                    "(Refactor.enc_refuses vs the refusal of EncapsulateField.get_changes)"),
                               "C17 enc: rope refuses (%s) but the model does not" % r["msg"][:100], no_input=True)
             continue
+        if r["status"] == "error" or r["oracle"]:
+            ro["failure"] = failure_class(r, ro, mism.get(idx, 0), idx not in smism)
         if r["oracle"]:
             ctx.violation(dict(ro, observed=r["oracle"]), "C17 %s: %s" % (kind, r["oracle"][:300]))
             continue
@@ -856,6 +1010,7 @@ def run(ctx):
         ctx.count("usef:helper:%s%s" % (p["usef"]["kind"], (":" + hz) if hz else ""))
         recs.extend(evaluate_usef(p))
     execute_records(recs)
+    check_others(ctx, recs)
     for r in recs[:2]:
         ctx.sample({"kind": r["kind"], "ma.py": r["srcs"]["ma"][:600], "after ma.py": (r["new"] or {}).get("ma", "")[:800]})
     check_records(ctx, recs)
